@@ -8,7 +8,7 @@ import re
 import subprocess
 import time
 
-from common import (NCPU, SPEC, UNIV, WORK, ToolError, ensure_dirs, log, model_check, run_tlc, tlc_counts)
+from common import (tlc_json_lines, NCPU, SPEC, UNIV, WORK, ToolError, ensure_dirs, log, model_check, run_tlc, tlc_counts)
 import universe as U
 
 RE_EDGE = re.compile(r'^<<"EDGE", "(.*)">>$')
@@ -248,12 +248,8 @@ def judge_one(prop, upath, tpath, filters_path=""):
     if dist != n + 1:
         raise ToolError("trace judge %s: %d states for %d lines" % (prop, dist, n))
     bad = []
-    for line in out.splitlines():
-        m = RE_BAD.match(line)
-        if m:
-            clauses = sorted(x.strip().strip('"') for x in m.group(6).split(",") if x.strip())
-            bad.append(dict(line=int(m.group(1)), h=int(m.group(2)), k=m.group(3), a=int(m.group(4)),
-                            res=m.group(5), clauses=clauses, trace=tpath))
+    for r in tlc_json_lines(out, "BAD"):
+        bad.append(dict(line=r["l"], h=r["h"], k=r["k"], a=r["a"], res=r["res"], clauses=sorted(r["v"]), trace=tpath))
     return bad, n
 
 
